@@ -297,6 +297,7 @@ class CaseGen(object):
         self.zones = r.choice([["-"], ["-"], ["-", "p"], ["-", "p", "q"], ["p"]])
         self.maint = r.random() < 0.7
         self.started = False
+        self.hist = []  # earlier symbolic writes (values are written again later)
 
     def fresh(self):
         self.wcount += 1
@@ -328,11 +329,33 @@ class CaseGen(object):
         af = self.addrform(r, zone)
         k = r.random()
         n = r.choice([1, 1, 2, 2, 3, 4, 4, 5, 8, 8, 12, 16])
+        if self.hist and r.random() < 0.14:
+            # the same value again (programs store the same register repeatedly): at the same
+            # place or nearby, with the same or the other endianness, whole or a byte slice of
+            # it at the offset where that slice already lies
+            old = r.choice(self.hist)
+            op = dict(old)
+            op["en"] = r.choice([old["en"], -old["en"]])
+            e = old["e"]
+            x = r.random()
+            if e["k"] == "reg" and e["n"] >= 2 and x < 0.5:
+                o = r.randrange(0, e["n"])
+                l = r.randint(1, e["n"] - o)
+                op["e"] = {"k": "slc", "name": e["name"], "big": e["n"], "pos": 8 * o, "n": l}
+                op["a"] = old["a"] + (o if old["en"] == 1 else e["n"] - o - l)
+            elif x < 0.8:
+                op["a"] = old["a"] + r.choice([-2, -1, 1, 2])
+            if op["z"] == "-":
+                op["a"] = max(0, op["a"])
+            op["again"] = True
+            return op
         if k < 0.3:
             return {"op": "wb", "z": zone, "a": a, "af": af, "d": bytes(r.randrange(256) for _ in range(n)).hex()}
         if k < 0.42:
             return {"op": "wc", "z": zone, "a": a, "af": af, "v": r.getrandbits(n * 8), "n": n, "en": r.choice([1, -1])}
-        return {"op": "we", "z": zone, "a": a, "af": af, "e": self.value(r, n), "en": r.choice([1, 1, -1])}
+        op = {"op": "we", "z": zone, "a": a, "af": af, "e": self.value(r, n), "en": r.choice([1, 1, -1])}
+        self.hist.append(op)
+        return op
 
     def read_op(self, r):
         zone = r.choice(self.zones)
@@ -578,6 +601,8 @@ class Case(object):
             self.do_write(self.M, self.model, op)
             self.log.event(op)
             st.hit("ops:write")
+            if op.get("again"):
+                st.hit("probe:write:same-value-again")
         elif k == "rd":
             sh = self.check_read(self.M, self.model, op["z"], op["a"], op["l"], op.get("af", "int"), "read")
             self.log.event(op, sh)
